@@ -22,6 +22,10 @@ def import_repo():
     """Import kneeliverse from /repo/src and assert that is where it came from."""
     if SRC not in sys.path:
         sys.path.insert(0, SRC)
+    import warnings
+    import numpy as np
+    warnings.filterwarnings('ignore')
+    np.seterr(all='ignore')
     import kneeliverse  # noqa
     f = os.path.realpath(kneeliverse.__file__)
     if not f.startswith(os.path.realpath(SRC) + os.sep):
@@ -323,6 +327,27 @@ def jsonable(o):
     return repr(o)
 
 
+def safe_case(fn):
+    """A harness-side exception in one generated case must not kill the whole check: it is counted, the first
+    traceback is kept for the log, and the run ends with exit 2 (infrastructure) if more than 1% of cases do this."""
+    import functools
+
+    @functools.wraps(fn)
+    def wrapper(ctx, *a, **k):
+        try:
+            return fn(ctx, *a, **k)
+        except (InfraError, KeyboardInterrupt):
+            raise
+        except Exception:
+            ctx.harness_exceptions += 1
+            if ctx.harness_exceptions == 1:
+                ctx.log['first_harness_exception'] = traceback.format_exc()[-1500:]
+            if ctx.driver is not None and ctx.driver.p.poll() is not None:
+                ctx.driver.dead = True
+            return None
+    return wrapper
+
+
 class Ctx:
     def __init__(self, prop_id, tier, seed):
         self.prop_id, self.tier, self.seed = prop_id, tier, seed
@@ -340,6 +365,7 @@ class Ctx:
         self.driver = None
         self.log = {}
         self.known_lines = []
+        self.harness_exceptions = 0
 
     # bookkeeping -------------------------------------------------------------------
     def tag(self, name, k=1):
@@ -448,8 +474,17 @@ def run_property(mod, prop_id, tier, seed, replay=None):
                 mod.replay(ctx, json.load(open(replay)))
             else:
                 mod.run(ctx)
+            if ctx.harness_exceptions:
+                print(f'HARNESS-EXCEPTIONS {ctx.harness_exceptions} (first: {ctx.log.get("first_harness_exception", "")[-400:]})')
+                ctx.tag('harness-exceptions', ctx.harness_exceptions)
+                if ctx.harness_exceptions > max(3, ctx.evaluations // 100):
+                    raise InfraError('too many harness-side exceptions')
     except InfraError as e:
         print('INFRA-ERROR', e)
+        traceback.print_exc()
+        return 2
+    except Exception as e:
+        print('INFRA-ERROR unexpected harness exception', repr(e))
         traceback.print_exc()
         return 2
     finally:
